@@ -33,9 +33,9 @@ GROUP = dict(
         dict(id='C20.reader.bounded64', harness='h_reader_bounded', unwind=46, backend='cadical', timeout=3000, tier='thorough', mem_gb=24,
              bounded='page_size 64 (7 entries per table), size <= 2304 bytes = 36 data pages: inline slots, head-slot boundary, four tables; unwind 46',
              defines=['VF_PS 64UL', 'VF_READER_BOUNDED 1', 'VF_MAXB 2304UL', 'VF_IOV_LOG 42']),
-        dict(id='C20.writer.bounded64', harness='h_writer_bounded', unwind=32, backend='cadical', timeout=3000, tier='thorough', mem_gb=24,
-             bounded='page_size 64 (7 entries per table), 1..30 data pages streamed; unwind 32',
-             defines=['VF_PS 64UL', 'VF_WRITER_BOUNDED 1', 'VF_NPAGES 30', 'VF_MAXPG 36']),
+        dict(id='C20.writer.bounded64', harness='h_writer_bounded', unwind=24, backend='cadical', timeout=3000, tier='thorough', mem_gb=24,
+             bounded='page_size 64 (7 entries per table), 1..22 data pages streamed (inline slots, head-slot boundary, first table filled, second opened); unwind 24',
+             defines=['VF_PS 64UL', 'VF_WRITER_BOUNDED 1', 'VF_NPAGES 22', 'VF_MAXPG 28']),
         dict(id='C20.overflow.ps4096', enforce='LogStreamBuffer_overflow', backend='cadical', timeout=1800, tier='thorough'),
     ],
 )
